@@ -54,9 +54,9 @@ def tokens(header, expected_ui_include):
             "uiinclude": q[0] if len(q) == 1 else "|".join(q), "expecteduiinclude": expected_ui_include}
 
 
-def compile_header(chk, name, type_name, header, ui):
+def compile_header(chk, name, type_name, header, ui, lowercase=True):
     ui_h, _ = cxx.ui_header(type_name, ui)
-    lower = type_name.lower()
+    lower = type_name.lower() if lowercase else type_name      # uic names its header after the .ui file as spelled
     files = {"main.cpp": '#include "mockqt_classes.h"\n#include "uisupport_%s.h"\nint main() { return 0; }\n' % lower,
              "ui_%s.h" % lower: ui_h, "uisupport_%s.h" % lower: header}
     rc1, err1 = cxx.syntax_check(chk.work, name, files)
@@ -290,6 +290,17 @@ def run(chk):
     docs.append(("enumbits", P.HEAD + "  TSource { id: t0; mode: a.mode | TSource.ModeB }\n  TSource { id: t1; level: a.level | TSource.Level.High }\n"
                  "  TSource { id: t2; level: ~a.level }\n  TSource { id: t3; level: a.level & a.level }\n}\n", [VERIF_METATYPES], True))
     docs.append(("shiftu", P.HEAD + "  TSource { id: t0; uval: a.uval << 3; ival: a.ival >> a.uval; jval: (a.uval as int) + (a.flag as int) + (a.mode as int) }\n}\n", [VERIF_METATYPES], True))
+    # typed declarations without initialiser that are never assigned as a whole, yet used (the only way to build a default value of a gadget type)
+    docs.append(("uninit", P.HEAD + "  TSource { id: t0; font: { let f: QFont; f.bold = a.flag; f.pointSize = a.ival; return f } }\n"
+                 "  TSource { id: t1; onIvalChanged: { let none: QString; a.text = none } }\n"
+                 "  TSource { id: t2; text: { let s: QString; if (a.flag) { s = a.text } return s } }\n"
+                 "  TSource { id: t3; ival: { let n: int; n = a.ival; return n } }\n"
+                 "  TSource { id: t4; onFontPicked: function(f: QFont) { let g: QFont; g.italic = f.bold; b.font = g } }\n"
+                 "  TSource { id: t5; text: { let s: QString; let t: QString; return a.flag ? s : a.text + t } }\n}\n", [VERIF_METATYPES], True))
+    # file names as spelled (--no-lowercase-file-name): the header of the form is the one uic writes for the .ui file of that name
+    docs.append(("keepcase:MainPanel", wide_doc(3), [VERIF_METATYPES], True))
+    docs.append(("keepcase:Ui_Form", collide_doc(), [VERIF_METATYPES], True))
+    docs.append(("keepcase:lower", wide_doc(2), [VERIF_METATYPES], True))
     docs.append(("ctxquote", P.HEAD + "  TSource { id: t0; text: a.flag ? qsTr(\"x\") : a.text }\n}\n", [VERIF_METATYPES], True))
     for n, g in enumerate(GADGET_DOCS):
         docs.append(("gadget%d" % n, g, [QT5_METATYPES, VERIF_T_METATYPES], False))
@@ -302,20 +313,24 @@ def run(chk):
         tn = "Doc" if not name.startswith("ex_") else name[3:]
         if name == "ctxquote":
             tn = "Do_c"
-        res = translate([{"id": name, "src": qml, "type_name": tn, "modes": ["generate"]}], metatypes=mts, procs=1)
+        keep = name.startswith("keepcase:")
+        if keep:
+            tn = name.split(":")[1]
+        res = translate([{"id": name, "src": qml, "type_name": tn, "modes": ["generate"], "lowercase": not keep}], metatypes=mts, procs=1)
         run_ = res[name]["generate"]
         if run_.get("panic") or not P.is_accepted(run_):
-            if name.startswith(("bind", "hand", "wide", "collide", "observers", "minmax", "shiftu", "empty")):
+            if name.startswith(("bind", "hand", "wide", "collide", "observers", "minmax", "shiftu", "empty", "uninit", "keepcase")):
                 raise ToolError("document %s not accepted: %s" % (name, json.dumps(run_.get("diags"))[:600] + str(run_.get("panic"))))
             continue
         todo.append((name, qml, tn, run_, comp))
 
     def judge(t):
         name, qml, tn, run_, comp = t
-        tok = tokens(run_["header"], "ui_%s.h" % tn.lower())
+        keep = name.startswith("keepcase:")
+        tok = tokens(run_["header"], "ui_%s.h" % (tn if keep else tn.lower()))
         st, st2, err = ("skip", "skip", "")
         if comp:
-            st, st2, err = compile_header(chk, name, tn, run_["header"], run_["ui"])
+            st, st2, err = compile_header(chk, name, tn, run_["header"], run_["ui"], lowercase=not keep)
         return tok, st, st2, err
     with ThreadPoolExecutor(14) as ex:
         judged = list(ex.map(judge, todo))
